@@ -22,7 +22,7 @@ def lattice(tier):
 
 def lattice4(tier):
     # depth-4 level (a hole left by a dead range between two live ones needs 4 ranges) on a 3-step lattice
-    T, S, A = (3, (16, 48, 64, 112), (16, 64)) if tier == "quick" else (4, (16, 48, 64, 112), (16, 64))
+    T, S, A = (3, (16, 48, 64, 112), (16, 64)) if tier == "quick" else (4, (16, 48, 112), (16, 64))
     iv = [(s, e) for s in range(T) for e in range(s, T)]
     return [(s, e, sz, al) for (s, e) in iv for sz in S for al in A]
 
